@@ -112,6 +112,7 @@ import deal, sys, socket, warnings
 warnings.simplefilter("ignore")
 from deal._state import state
 
+KEEP = []
 def snap():
     return (state.debug, sys.stdout, sys.stderr, socket.socket, sys.gettrace(), list(sys.meta_path))
 def same(a, b):
@@ -177,6 +178,18 @@ def probe():
             t = MemoryTracker()
             with t:
                 if raises: raise ValueError("body")
+        # the memtest and test CLI runners over generated cases
+        import io
+        from deal._cli._memtest import run_cases as mem_run_cases
+        from deal._cli._test import run_cases as test_run_cases
+        colors = dict(blue="", yellow="", red="", green="", end="", magenta="")
+        def leaky(x: int) -> int:
+            KEEP.append([x]); return x
+        check(f"memtest run_cases(f) [{tag}]", lambda: mem_run_cases(deal.cases(f, count=3, check_types=False), "f", io.StringIO(), colors))
+        check(f"memtest run_cases(g: body raises) [{tag}]", lambda: mem_run_cases(deal.cases(g, count=3, check_types=False), "g", io.StringIO(), colors))
+        check(f"memtest run_cases(leaky) [{tag}]", lambda: mem_run_cases(deal.cases(leaky, count=3, check_types=False), "leaky", io.StringIO(), colors))
+        check(f"test run_cases(f) [{tag}]", lambda: test_run_cases(deal.cases(f, count=3, check_types=False), "f", io.StringIO(), colors))
+        check(f"test run_cases(g: body raises) [{tag}]", lambda: test_run_cases(deal.cases(g, count=3, check_types=False), "g", io.StringIO(), colors))
         check(f"MemoryTracker [{tag}]", tracked, False)
         check(f"MemoryTracker, body raises [{tag}]", tracked, True)
     deal.enable()
